@@ -22,6 +22,16 @@ def run(tier, seed):
         slow = be == "nayuki-portable"
         jobs.append(Job("c06", "tsan", be, {"mode": "rc", "keyseed": 1, "maxT": 4 if slow and q else 8, "maxops": 2, "lambda": 80}, env=TSAN,
                         rc_params=core.rc_params(core.splitmix(seed, 50 + i), (2 if slow else 4) if q else 60), label="rc tsan %s" % be, weight=2, timeout=3000))
+    # thread histories in which the harness thread itself never runs an FFT (all keys made by helper threads that have exited), per back-end
+    for i, be in enumerate(build.BACKENDS):
+        slow = be.startswith("nayuki")
+        jobs.append(Job("c06", "optim", be, {"mode": "rc", "keyseed": 3, "offmain": 1, "maxT": 8 if slow else 32, "maxops": 3, "lambda": 80}, rc_params=core.rc_params(core.splitmix(seed, 70 + i), (4 if slow else 8) if q else 60), label="rc optim offmain %s" % be, weight=2))
+    # thread churn: bursts of short-lived threads whose first (and only) FFT use overlaps other threads' exits; no long-lived thread holds a processor
+    for i, be in enumerate(build.BACKENDS):
+        slow = be.startswith("nayuki")
+        for r in range((3 if be == "fftw" else 1) if q else 4):
+            jobs.append(Job("c06", "optim", be, {"mode": "rc", "keyseed": 3, "offmain": 1, "burstw": 40, "maxT": 8 if slow else 16, "maxops": 3, "lambda": 80}, rc_params=core.rc_params(core.splitmix(seed, 80 + 10 * r + i), (3 if slow else 20) if q else 40), label="rc optim churn %s %d" % (be, r), weight=2))
+    jobs.append(Job("c06", "tsan", "fftw", {"mode": "rc", "keyseed": 3, "offmain": 1, "burstw": 40, "maxT": 4, "maxops": 2, "lambda": 80}, env=TSAN, rc_params=core.rc_params(core.splitmix(seed, 120), 3 if q else 30), label="rc tsan churn fftw", weight=2, timeout=3000))
     jobs.sort(key=lambda j: 0 if j.config == "tsan" else 1)
     core.run_jobs(jobs, parallel=10)
     for j in jobs:
@@ -34,8 +44,8 @@ def run(tier, seed):
         if f.get("crash") and "ThreadSanitizer" in (f.get("why") or ""):
             f["sig"] = "c06/tsan-report"
     res.rule = ("E1 rapidcheck over workloads: thread count in {1,2,3,4,8,16,32,64}, per-thread operation lists drawn from {each gate on shared inputs, tfhe_bootstrap_FFT, tfhe_bootstrap_woKS_FFT, FFT product of "
-                "thread-private polynomials, Lagrange add/addmul on private objects, heap churn (allocate, fill, free 16..512 KB before the next FFT call), loops over the rounding functions with other message-space sizes, exact Karatsuba products, sleep/yield, thread exit + respawn}, generated start offsets, optional "
-                "key-generation/encryption thread on its own data, key generated on the main thread or on a thread that has since exited; all jobs run concurrently so the machine is oversubscribed. Oracle: every output is "
+                "thread-private polynomials, Lagrange add/addmul on private objects, heap churn (allocate, fill, free 16..512 KB before the next FFT call), loops over the rounding functions with other message-space sizes, exact Karatsuba products, sleep/yield, thread exit + respawn, bursts of 6..48 short-lived threads (1..6 rounds, sliding window of 1..16 live threads or all at once) that each make one FFT product and exit}, generated start offsets, optional "
+                "key-generation/encryption thread on its own data, key generated on the main thread or on a thread that has since exited (in the 'offmain' jobs every key is made by helper threads that have exited, so the harness thread never owns an FFT processor and the burst threads are the only owners); all jobs run concurrently so the machine is oversubscribed. Oracle: every output is "
                 "byte-identical to a reference computed by a fresh thread of a *freshly forked process image* that has never evaluated anything and runs only that operation (so concurrency, position in the per-thread history, thread identity and process-wide statics latched by earlier calls must not matter); operations include bootstrapping under two further key sets with different dimensions and key-switch layouts, and two crafted inputs whose AND combination rounds to exactly 0; ThreadSanitizer build "
                 "of the same workloads must not report (nayuki-portable, fftw, C++ parts of spqlios). Non-trivial = >= 2 threads evaluating on the shared key or an evaluation preceded by other operations on its thread; distinct by case hash.")
     res.assumptions = ["thread interleavings are sampled, not controlled: absence of races is not established", "hand-written assembly is invisible to ThreadSanitizer; it is covered by the byte comparison only"]
